@@ -20,7 +20,16 @@
 (* DropUnwind is a Drop that happens while the thread is panicking (the    *)
 (* handle is owned by a frame a panic unwinds through); the contract is    *)
 (* the same.                                                               *)
+(* Zeroize is an explicit wipe of a live object (it stays live, holding    *)
+(* zeros); CloneFrom refills an existing object from another one of the    *)
+(* same kind (Clone::clone_from: by default the old value is dropped and a *)
+(* fresh clone moves in).  The contract does not change: whatever block is *)
+(* released, whenever, is all-zero at that moment.                         *)
 (* Deviations (each must break an invariant):                              *)
+(*   StaleWipedFlag   each object remembers "already wiped" so that a      *)
+(*                    second wipe can be skipped; CloneFrom refills the    *)
+(*                    storage in place and forgets to reset the flag, so   *)
+(*                    the drop after zeroize + clone_from does not wipe    *)
 (*   SkipWipeWhenPanicking  Drop wipes only when the thread is not         *)
 (*                    unwinding                                            *)
 (*   NoDropErase      no zeroisation in Drop                               *)
@@ -46,11 +55,12 @@ VARIABLES slot,      \* slot -> object
           released,  \* set of [block, zero] observed at release
           blocks,    \* block id -> [content ("secret" s | 0 = wiped), holders]
           nextBlock, nextSecret,
-          pend       \* threads of a concurrent drop in progress: set of [slot, saw]   saw: "none" | "unique" | "shared"
-vars == <<slot, prog, released, blocks, nextBlock, nextSecret, pend>>
+          pend,      \* threads of a concurrent drop in progress: set of [slot, saw]   saw: "none" | "unique" | "shared"
+          wflag      \* slot -> the object's "already wiped" flag (only the deviation StaleWipedFlag looks at it)
+vars == <<slot, prog, released, blocks, nextBlock, nextSecret, pend, wflag>>
 
 Init == /\ slot = [i \in Slots |-> Empty] /\ prog = <<>> /\ released = {} /\ blocks = <<>> /\ nextBlock = 1 /\ nextSecret = 1
-        /\ pend = {}
+        /\ pend = {} /\ wflag = [i \in Slots |-> FALSE]
 
 Idle == pend = {}
 
@@ -60,6 +70,7 @@ Construct(i, k) ==
   /\ blocks' = Append(blocks, [content |-> nextSecret, holders |-> 1])
   /\ nextBlock' = nextBlock + 1 /\ nextSecret' = nextSecret + 1
   /\ prog' = Append(prog, [op |-> "construct", slot |-> i, kind |-> k, src |-> 0])
+  /\ wflag' = [wflag EXCEPT ![i] = FALSE]
   /\ UNCHANGED <<released, pend>>
 Clone(i, j) ==
   /\ Idle /\ slot[i].live /\ ~slot[j].live /\ i # j /\ Len(prog) < MaxSteps
@@ -69,6 +80,7 @@ Clone(i, j) ==
      ELSE /\ slot' = [slot EXCEPT ![j] = [slot[i] EXCEPT !.block = nextBlock]]
           /\ blocks' = Append(blocks, [content |-> slot[i].secret, holders |-> 1]) /\ nextBlock' = nextBlock + 1
   /\ prog' = Append(prog, [op |-> "clone", slot |-> j, kind |-> slot[i].kind, src |-> i])
+  /\ wflag' = [wflag EXCEPT ![j] = wflag[i]]
   /\ UNCHANGED <<released, nextSecret, pend>>
 
 \* what one atomic drop of the handle in slot i does to storage
@@ -77,6 +89,8 @@ WipesOnDropNormally(b) ==
     [] Variant = "SharedClone" -> TRUE                       \* every drop wipes the shared block
     [] OTHER -> blocks[b].holders = 1                        \* the last holder wipes
 WipesOnDrop(b) == WipesOnDropNormally(b)
+\* the drop of the object in slot i
+WipesOnDropOf(i) == IF Variant = "StaleWipedFlag" /\ wflag[i] THEN FALSE ELSE WipesOnDrop(slot[i].block)
 WipesOnUnwind(b) == IF Variant = "SkipWipeWhenPanicking" THEN FALSE ELSE WipesOnDropNormally(b)
 AfterDrop(b, wipe) ==
   LET c == IF wipe THEN 0 ELSE blocks[b].content IN
@@ -85,25 +99,70 @@ AfterDrop(b, wipe) ==
 
 Drop(i) ==
   /\ Idle /\ slot[i].live /\ Len(prog) < MaxSteps
-  /\ AfterDrop(slot[i].block, WipesOnDrop(slot[i].block))
+  /\ AfterDrop(slot[i].block, WipesOnDropOf(i))
   /\ slot' = [slot EXCEPT ![i] = Empty]
   /\ prog' = Append(prog, [op |-> "drop", slot |-> i, kind |-> slot[i].kind, src |-> 0])
-  /\ UNCHANGED <<nextBlock, nextSecret, pend>>
+  /\ UNCHANGED <<nextBlock, nextSecret, pend, wflag>>
+
+\* explicit wipe of a live object: it keeps its storage, which now holds zeros.  Where clones share one block and there
+\* are other holders, the object detaches to a block of zeros of its own (the other holders keep their key)
+Zeroize(i) ==
+  /\ Idle /\ slot[i].live /\ Len(prog) < MaxSteps
+  /\ LET b == slot[i].block IN
+     IF Shares /\ blocks[b].holders > 1
+     THEN /\ blocks' = Append([blocks EXCEPT ![b].holders = @ - 1], [content |-> 0, holders |-> 1])
+          /\ slot' = [slot EXCEPT ![i] = [@ EXCEPT !.secret = 0, !.block = nextBlock]]
+          /\ nextBlock' = nextBlock + 1
+     ELSE /\ blocks' = [blocks EXCEPT ![b].content = 0]
+          /\ slot' = [slot EXCEPT ![i] = [@ EXCEPT !.secret = 0]]
+          /\ UNCHANGED nextBlock
+  /\ wflag' = [wflag EXCEPT ![i] = TRUE]
+  /\ prog' = Append(prog, [op |-> "zeroize", slot |-> i, kind |-> slot[i].kind, src |-> 0])
+  /\ UNCHANGED <<released, nextSecret, pend>>
+
+\* refill the live object in slot j from the live object in slot i (same kind)
+CloneFrom(i, j) ==
+  /\ Idle /\ slot[i].live /\ slot[j].live /\ i # j /\ slot[i].kind = slot[j].kind /\ Len(prog) < MaxSteps
+  /\ slot[i].block # slot[j].block
+  /\ LET bj == slot[j].block
+         bi == slot[i].block
+     IN IF Variant = "StaleWipedFlag"
+        THEN \* storage of j reused in place, flag of j left as it was
+             /\ blocks' = [blocks EXCEPT ![bj].content = slot[i].secret]
+             /\ slot' = [slot EXCEPT ![j] = [@ EXCEPT !.secret = slot[i].secret]]
+             /\ UNCHANGED <<released, nextBlock, wflag>>
+        ELSE IF Shares
+        THEN \* j lets go of its block (the last holder wipes and releases) and joins i's
+             /\ LET c == IF WipesOnDrop(bj) THEN 0 ELSE blocks[bj].content IN
+                /\ blocks' = [blocks EXCEPT ![bj] = [content |-> c, holders |-> blocks[bj].holders - 1], ![bi].holders = @ + 1]
+                /\ released' = IF blocks[bj].holders = 1 THEN released \cup {[block |-> bj, zero |-> (c = 0)]} ELSE released
+             /\ slot' = [slot EXCEPT ![j] = [@ EXCEPT !.secret = slot[i].secret, !.block = bi]]
+             /\ wflag' = [wflag EXCEPT ![j] = wflag[i]]
+             /\ UNCHANGED nextBlock
+        ELSE \* the default clone_from: the old value of j is dropped (wiped, released), a fresh clone moves in
+             /\ LET c == IF WipesOnDrop(bj) THEN 0 ELSE blocks[bj].content IN
+                /\ blocks' = Append([blocks EXCEPT ![bj] = [content |-> c, holders |-> 0]], [content |-> slot[i].secret, holders |-> 1])
+                /\ released' = released \cup {[block |-> bj, zero |-> (c = 0)]}
+             /\ slot' = [slot EXCEPT ![j] = [@ EXCEPT !.secret = slot[i].secret, !.block = nextBlock]]
+             /\ nextBlock' = nextBlock + 1
+             /\ wflag' = [wflag EXCEPT ![j] = wflag[i]]
+  /\ prog' = Append(prog, [op |-> "clone_from", slot |-> j, kind |-> slot[i].kind, src |-> i])
+  /\ UNCHANGED <<nextSecret, pend>>
 
 \* the same, run by the unwinder
 DropUnwind(i) ==
   /\ Idle /\ slot[i].live /\ Len(prog) < MaxSteps
-  /\ AfterDrop(slot[i].block, WipesOnUnwind(slot[i].block))
+  /\ AfterDrop(slot[i].block, IF Variant = "StaleWipedFlag" /\ wflag[i] THEN FALSE ELSE WipesOnUnwind(slot[i].block))
   /\ slot' = [slot EXCEPT ![i] = Empty]
   /\ prog' = Append(prog, [op |-> "drop_unwind", slot |-> i, kind |-> slot[i].kind, src |-> 0])
-  /\ UNCHANGED <<nextBlock, nextSecret, pend>>
+  /\ UNCHANGED <<nextBlock, nextSecret, pend, wflag>>
 
 \* two threads start dropping two handles at the same moment
 Drop2(i, j) ==
   /\ Idle /\ slot[i].live /\ slot[j].live /\ i < j /\ Len(prog) < MaxSteps
   /\ pend' = {[slot |-> i, saw |-> "none"], [slot |-> j, saw |-> "none"]}
   /\ prog' = Append(prog, [op |-> "drop2", slot |-> i, kind |-> slot[i].kind, src |-> j])
-  /\ UNCHANGED <<slot, released, blocks, nextBlock, nextSecret>>
+  /\ UNCHANGED <<slot, released, blocks, nextBlock, nextSecret, wflag>>
 \* one step of one of the two threads
 ThreadStep(t) ==
   /\ t \in pend
@@ -115,12 +174,14 @@ ThreadStep(t) ==
      ELSE /\ AfterDrop(b, IF Variant = "SharedRacy" THEN t.saw = "unique" ELSE WipesOnDrop(b))
           /\ slot' = [slot EXCEPT ![t.slot] = Empty]
           /\ pend' = pend \ {t}
-  /\ UNCHANGED <<prog, nextBlock, nextSecret>>
+  /\ UNCHANGED <<prog, nextBlock, nextSecret, wflag>>
 
 Next == \/ \E i \in Slots, k \in Kinds : Construct(i, k)
         \/ \E i, j \in Slots : Clone(i, j)
         \/ \E i \in Slots : Drop(i)
         \/ \E i \in Slots : DropUnwind(i)
+        \/ \E i \in Slots : Zeroize(i)
+        \/ \E i, j \in Slots : CloneFrom(i, j)
         \/ \E i, j \in Slots : Drop2(i, j)
         \/ \E t \in pend : ThreadStep(t)
 Spec == Init /\ [][Next]_vars
